@@ -254,6 +254,7 @@ func c15GenFiles(T *sim.Tape) []*c15File {
 		units[i] = c15Units[(T.Intn(len(c15Units), "unit")+i)%len(c15Units)]
 	}
 	exact := T.Intn(4, "exact") == 0
+	respell := T.Intn(4, "respell-units") == 0 // some lines give a unit in its rescaled spelling
 	var files []*c15File
 	for fi := 0; fi < nf; fi++ {
 		f := &c15File{name: fmt.Sprintf("g%d.txt", fi)}
@@ -307,6 +308,15 @@ func c15GenFiles(T *sim.Tape) []*c15File {
 						case 1:
 							if v != 0 {
 								v = -v // never negative zero: 0 and -0 tie in every sort, so which one is the median is not prescribed
+							}
+						}
+						if respell && T.Bool("respell-this-line") {
+							// the same quantity written in the unit's other spelling: ns/op as sec/op, MB/s as B/s
+							switch u {
+							case "ns/op":
+								u, v = "sec/op", v*1e-9
+							case "MB/s":
+								u, v = "B/s", v*1e6
 							}
 						}
 						fmt.Fprintf(&l, " %v %s", strconv.FormatFloat(v, 'g', 6, 64), u)
